@@ -11,11 +11,13 @@ LEVEL_TEXT = ("Theorems (Lean 4, any linearly ordered field, ALL tables with str
               "1-D segment; along a 2-D grid line the affine interpolant of the two adjacent knots for either diagonal; inside a cell "
               "between min and max of the four corners (for every enclosing cell, and such a cell exists for every query); outside the "
               "table = value at the clamped point; query and table signs ignored; a table of constant entries c evaluates to |c| "
-              "everywhere (1-D with no condition on the axis, 2-D on every well-conditioned grid). The interpolator model is tied to "
+              "everywhere (1-D with no condition on the axis, 2-D on every well-conditioned grid); for tables as the constructors accept "
+              "them (io axis increasing in magnitude, vi rows in ANY order and sign) every query stays within the range of the tabulated "
+              "magnitudes (interp2_global_range) and 1-D knot exactness holds (interp1_knot_abs). The interpolator model is tied to "
               "the code on every run through the probe Source(V) -> component(table) -> ILoad(I) for all seven table-bearing "
-              "(kind, parameter) pairs. Not covered by the theorems: vi rows given in shuffled order are handled by the model's row "
-              "sort and checked by correspondence + oracle only; io axes with negative entries are outside the hypotheses "
-              "(knot_negative_axis_fails) and are finding F11.")
+              "(kind, parameter) pairs. Not covered by the theorems: the exact value (knot / grid line / cell) for vi rows given in "
+              "shuffled order rests on the model's row sort and is checked by correspondence + oracle only. Former finding F11 (axis "
+              "increasing as given but not in magnitude) is fixed in /repo; the witness stays as a regression stream.")
 LEVEL_NOTE = "scipy's Qhull triangulation is a parameter (diag) of the model: every theorem quantifies over it; the harness accepts either diagonal."
 MODULE = "SysLoss.Props.C10"
 THEOREMS = ["SysLoss.C10." + t for t in (
@@ -23,7 +25,8 @@ THEOREMS = ["SysLoss.C10." + t for t in (
     "interp1_sign", "interp_sign_as_used", "interp1_table_sign", "interp2_table_sign", "interp1_const",
     "cellVal_range", "interp2_inside", "interp2_clamp", "clamp_is_nearest", "interp2_eq_cellAt", "interp2_edge_x",
     "interp2_edge_y", "interp2_knot", "interp2_range", "interp2_range_exists", "interp2_const",
-    "param_const_table_1d", "param_const_table_2d", "knot_negative_axis_fails")]
+    "param_const_table_1d", "param_const_table_2d", "interp1_abs_axis", "interp1_knot_abs", "interp2_global_range",
+    "knot_negative_axis_fails")]
 RULE = ("well-conditioned tables per the property (io strictly increasing, 2-8 columns, 1-6 vi rows mostly in increasing order and "
         "20% shuffled, steps >= 1e-3 of the largest coordinate, first io knot 0 in 30%) for Converter.eff, VLoss.vdrop, LinReg.ig, "
         "PSwitch.ig, PMux.ig, Rectifier.vdrop, Rectifier.ig; per table queries on knots, on grid lines, inside cells and outside on "
@@ -76,6 +79,11 @@ def gen_case(rng):
     vq_lo = 0.5 * vis[0] if nvi > 1 else 1.0
     lo, hi = value_range(z, vq_lo)
     t[z] = [[ud(rng, lo, hi, 4) for _ in t["io"]] for _ in t["vi"]]
+    if rng.random() < 0.1 and 0 < t["io"][0] < t["io"][1]:
+        t["io"][0] = -t["io"][0]               # a negative sign on the first knot keeps the axis increasing in magnitude
+    if nvi > 1 and rng.random() < 0.1:
+        r = rng.randrange(nvi)
+        t["vi"][r] = -t["vi"][r]               # table data are taken in magnitude
     return kind, z, t
 
 
@@ -219,6 +227,10 @@ def check_table(ctx, kind, z, table, queries, case, f11=False):
     res = run_probes(kind, z, table, queries)
     usable = []
     for (c, i, v, row, err) in res:
+        if f11 and err is not None and err[0] == "build" and probe.exc_name(err[1]) == "ValueError":
+            ctx.stats["f11_stream:rejected_by_constructor"] += 1     # the repaired behaviour (b59f1ff)
+            ctx.case(key=[kind, z, repr(table), i, v], nontrivial=True)
+            continue
         if err is not None:
             ctx.stats["probe_error:%s" % probe.exc_name(err[1])] += 1
             ctx.oracle(case, "probe_solves", kind, {}, {"query": [i, v], "error": repr(err[1])})
@@ -353,6 +365,15 @@ def gen_f11(rng):
     return kind, z, t
 
 
+def corpus_f11():
+    import glob, json, os
+    out = []
+    for f in sorted(glob.glob(os.path.join(wire.VERIF, "corpus", "C10", "*.json"))):
+        c = json.load(open(f))["case"]
+        out.append((c["kind"], c["z"], c["table"]))
+    return out
+
+
 def run(ctx):
     ntab = ctx.n(700, 14000)
     for _ in range(ntab):
@@ -370,6 +391,8 @@ def run(ctx):
             ctx.stats["vi_shuffled"] += 1
         if t["io"][0] == 0.0:
             ctx.stats["io_starts_at_0"] += 1
+        if t["io"][0] < 0 or any(v < 0 for v in t["vi"]):
+            ctx.stats["negative_axis_entry"] += 1
         case = {"kind": kind, "z": z, "table": t, "queries": queries}
         check_table(ctx, kind, z, t, queries, case)
         if ctx.rng.random() < 0.25:
@@ -382,8 +405,9 @@ def run(ctx):
         t = ctorgen.gen_table(ctx.rng, z, 0, 1, const=0.5 if z != "ig" else 0.01)
         br = [{"v": 12.0, "i": 0.3, "kind": kind, "args": comp_args(kind, z, t)}]
         check_const(ctx, probe.probe_desc(br)[0])
-    # finding F11 (negative io axis): the committed witness and a dedicated small stream, oracle only
-    f11 = [("vloss", "vdrop", F11_WITNESS)] + [gen_f11(ctx.rng) for _ in range(ctx.n(6, 60))]
+    # former finding F11 (io axis increasing as given but not in magnitude; fixed in /repo b59f1ff): the witness and a small
+    # stream stay as regression — the table must be refused by the constructor, or evaluated exactly at its knots
+    f11 = [("vloss", "vdrop", F11_WITNESS)] + corpus_f11() + [gen_f11(ctx.rng) for _ in range(ctx.n(6, 60))]
     for kind, z, t in f11:
         queries = [("knot", abs(x), 10.0) for x in t["io"]]
         ctx.stats["f11_stream"] += 1
